@@ -5,6 +5,7 @@ import (
 	"go/ast"
 	"go/token"
 	"go/types"
+	"math/big"
 	"strings"
 
 	"golang.org/x/tools/go/packages"
@@ -56,6 +57,7 @@ func checkC04(c *Ctx, r *Report) {
 	checkGFTableLoop(c, r)
 	checkGFOps(c, r)
 	checkRSRoots(c, r)
+	checkChienSearch(c, r)
 	checkFieldUse(c, r)
 	// kinds of the decoder
 	r.Rule("E-KIND-RS", "ReedSolomonDecoder.Decode returns only ReedSolomonException-kind errors (so callers' checksum mapping sees every failure)", 1)
@@ -494,6 +496,122 @@ func checkRSRoots(c *Ctx, r *Report) {
 	} else {
 		r.AnchorLost("S-RSROOTS", "common/reedsolomon.ReedSolomonDecoder.findErrorMagnitudes", "method not found")
 	}
+}
+
+// the Chien search tries every non-zero field element and the correction lands at len-1-log(location)
+func checkChienSearch(c *Ctx, r *Report) {
+	r.Rule("S-CHIEN", "findErrorLocations evaluates the locator at every one of the size-1 non-zero field elements (candidates i = 1..size-1, or alpha^(a +/- k) for size-1 consecutive k), records the inverse of each root, and fails unless it found as many roots as the locator's degree; Decode corrects position len(received)-1-log(location) and rejects a negative position", 3)
+	fd, p := c.funcDeclOf("common/reedsolomon", "ReedSolomonDecoder.findErrorLocations")
+	key := "common/reedsolomon.ReedSolomonDecoder.findErrorLocations"
+	if fd == nil {
+		r.AnchorLost("S-CHIEN", key, "method not found")
+	} else {
+		r.Analysed(key)
+		s := c.symFunc(fd, p, func(o types.Object) bool {
+			fn, ok := o.(*types.Func)
+			return ok && (fn.Name() == "GetSize" || fn.Name() == "Exp" || fn.Name() == "GetDegree" || fn.Name() == "Inverse")
+		})
+		ro := polyAtom(objAtom(recvObj(p, fd))).String()
+		size := polyAtom("call:(*common/reedsolomon.GenericGF).GetSize(fld(" + ro + ",field))")
+		bad := "no locator evaluation inside a loop"
+		var cand *Poly
+		var evalConds []symCond
+		for _, cl := range s.calls {
+			if isMethodNamed(cl.Callee, "common/reedsolomon", "GenericGFPoly", "EvaluateAt") && len(cl.Args) == 1 && len(kAtoms(cl.Args[0])) == 1 {
+				cand = cl.Args[0]
+				evalConds = cl.Conds
+			}
+		}
+		if cand != nil {
+			k := kAtoms(cand)[0]
+			K := polyAtom(k)
+			// number of iterations: the loop condition `counter < bound` with counter = init + K
+			var count *Poly
+			var lo *Poly
+			for _, cd := range evalConds {
+				if cd.neg || (cd.op != token.LSS && cd.op != token.LEQ) {
+					continue
+				}
+				if len(kAtoms(cd.l)) == 1 && kAtoms(cd.l)[0] == k && len(kAtoms(cd.r)) == 0 {
+					init := cd.l.sub(K)
+					if _, isC := init.isConst(); !isC {
+						continue
+					}
+					n := cd.r.sub(init)
+					if cd.op == token.LEQ {
+						n = n.add(polyInt(1))
+					}
+					if strings.Contains(cd.r.String(), "GetSize") {
+						count, lo = n, init
+					}
+				}
+			}
+			cs := cand.String()
+			switch {
+			case count == nil:
+				bad = "the search loop is not bounded by the field size"
+			case cand.equal(lo.add(K)):
+				// candidates lo .. lo+count-1 must include 1 .. size-1
+				loC, _ := lo.isConst()
+				short := size.sub(lo.add(count)) // elements missing at the top
+				sc, isC := short.isConst()
+				if loC.Cmp(big.NewRat(1, 1)) > 0 || !isC || sc.Sign() > 0 {
+					bad = "the candidates " + prettyPoly(lo) + " .. " + prettyPoly(lo.add(count).sub(polyInt(1))) + " do not cover every non-zero element 1 .. size-1"
+				} else {
+					bad = ""
+				}
+			case strings.HasPrefix(cs, "call:(*common/reedsolomon.GenericGF).Exp("):
+				short := size.sub(polyInt(1)).sub(count)
+				sc, isC := short.isConst()
+				if !isC || sc.Sign() > 0 {
+					bad = "only " + prettyPoly(count) + " powers of alpha are tried; the multiplicative group has size-1 elements"
+				} else {
+					bad = ""
+				}
+			default:
+				bad = "?candidate " + prettyPoly(cand) + " is neither the loop counter nor a power of alpha"
+			}
+		}
+		reportFold(r, c, "S-CHIEN", key, fd.Pos(), bad)
+		// the count check after the loop
+		okCount := false
+		for _, rt := range s.rets {
+			if len(rt.Vals) == 2 && !strings.HasPrefix(rt.Vals[1].String(), "nil") {
+				for _, cd := range rt.Conds {
+					if cd.op == token.NEQ && !cd.neg && (strings.Contains(cd.r.String(), "GetDegree") || strings.Contains(cd.l.String(), "GetDegree")) {
+						okCount = true
+					}
+				}
+			}
+		}
+		r.Check(okCount, "S-CHIEN", key+"/count", c.pos(fd.Pos()), "fewer roots than the locator's degree must be an error (uncorrectable word), not a partial correction")
+	}
+	fd, p = c.funcDeclOf("common/reedsolomon", "ReedSolomonDecoder.Decode")
+	key = "common/reedsolomon.ReedSolomonDecoder.Decode/position"
+	if fd == nil {
+		r.AnchorLost("S-CHIEN", key, "method not found")
+		return
+	}
+	r.Analysed(key)
+	s := c.symFunc(fd, p, func(o types.Object) bool { return true })
+	recv := polyAtom(objAtom(paramObjs(p, fd)[0]))
+	ok := false
+	for _, st := range s.stores {
+		if st.Base.equal(recv) && st.Loop == 1 {
+			// index = len(received) - 1 - res0(Log(errorLocations[i]))
+			rest := polyAtom("len(" + recv.String() + ")").sub(polyInt(1)).sub(st.Index)
+			if len(rest.m) == 1 && strings.Contains(rest.String(), ".Log(") && strings.Contains(rest.String(), "idx(") {
+				for _, cd := range st.Conds {
+					if cd.neg && cd.op == token.LSS && cd.l.equal(st.Index) {
+						if z, isC := cd.r.isConst(); isC && z.Sign() == 0 {
+							ok = true
+						}
+					}
+				}
+			}
+		}
+	}
+	r.Check(ok, "S-CHIEN", key, c.pos(fd.Pos()), "each error must be corrected at received[len(received)-1-log(location)], and a negative position rejected first")
 }
 
 // each symbology's encoder and decoder use the field the standard prescribes
